@@ -41,15 +41,15 @@ CHECKS = {
   technique="deterministic simulation with fault injection: exhaustive placement of record-stream faults over a simulated genotype source and crafted files; conservation and all-or-nothing oracles"),
 "C11": dict(
   category="exploration",
-  text="Seeded record histories (2..12 records drawn by kind so that every ordered predecessor/successor pair occurs, with and without projection) with source faults inside the history (error at record i, ploidy error mid-record, Done in the middle, then reading continues); each step of the history is compared bit-exactly with the same record read by a fresh reader (refinement against a history-free reference that is the same code), and spectra of concatenations / permutations are compared at library and process level.",
+  text="Seeded record histories (2..12 records drawn by kind so that every ordered predecessor/successor pair occurs, one history in forty with up to 1,600 records; with and without projection) with source faults inside the history (error at record i, ploidy error mid-record, Done in the middle, then reading continues); each step of the history is compared bit-exactly with the same record read by a fresh reader (refinement against a history-free reference that is the same code), and spectra of concatenations / permutations are compared at library and process level.",
   design_ref="DESIGN.md section 6 / C11",
-  note="The simulated source delivers genotype results directly (classification of GT strings is not judged). Spectrum-level comparisons under projection allow 1e-9 absolute.",
+  note="The simulated source delivers genotype results directly (classification of GT strings is not judged). Spectrum-level comparisons under projection allow 1e-9 absolute per hundred records (sums formed in a different order). At process level a run may fail because of one record; then the whole must fail iff one of its parts does, and a permutation iff the original order does.",
   technique="deterministic simulation: seeded operation histories with injected source faults, checked by refinement against a history-free reference (fresh reader per record)"),
 "C16": dict(
   category="fault_enumeration",
   text="Crash-consistency enumeration: for each generated valid spectrum file (numpy-style npy of every dtype/byte order/version/spelling, npy and text written by sfs) every truncation offset, every extension of 1..16 bytes in five content kinds and every single-token edit (with every kind of ASCII whitespace at the edited place) / shape edit of text is produced and handed to the real readers, which must reject all of them; the real view/fold/stat binaries are run on one damage per class and on prefixes the tool itself leaves when killed mid-write by the shim. Exhaustive per file within the size bound (<= 64 elements quick, <= 480 thorough; larger files, up to 66,000 values, with every extension and sampled truncation offsets); files are sampled.",
   design_ref="DESIGN.md section 6 / C16",
-  note="A panic on a damaged file counts as rejection here (panics are C17). The oracle is applied only when the undamaged control is accepted by the same reader.",
+  note="A panic on a damaged file counts as rejection here (panics are C17). The library-level oracle does not depend on the undamaged control being accepted. Every case runs on its own thread, so the reads of a case are a replayable call history and per-thread reader state cannot leak between cases.",
   technique="deterministic simulation with fault injection: exhaustive crash-point (truncation) and stale-tail enumeration on a simulated disk; process-level kill-at-byte-k via LD_PRELOAD shim"),
 "C07": dict(
   category="exploration",
@@ -59,7 +59,7 @@ CHECKS = {
   technique="deterministic simulation: seeded storage histories (write, read back) under short-write / chunked-read schedules at library and process level"),
 "C19": dict(
   category="exploration",
-  text="Every shape of the stated grid (1..5 axes x lengths 1..5, 3,905 shapes) x every axis incl. dims and dims+1 x every position incl. len and len+1 is visited; on each, seeded call histories (next/nth/len/size_hint/clone, and fold/count/last on a clone or by value, continued 1..2*len+4 calls past the first None) are run against iter_indices, iter_axis, view iterators and iter_frequencies and compared call by call with a nested-loop row-major reference model; sum(axis) is compared with adding the views; arrays obtained from Array::read_npy (C-order and Fortran-order headers) must be self-consistent when accepted. The grid is exhaustive, the histories are sampled.",
+  text="Every shape of the stated grid (1..5 axes x lengths 1..5, 3,905 shapes) x every axis incl. dims and dims+1 (for get_axis and for iter_axis, whose iterator must then be empty, report length 0 and not panic) x every position incl. len and len+1 is visited; on each, seeded call histories (next/nth/len/size_hint/clone, and fold/count/last on a clone or by value, continued 1..2*len+4 calls past the first None) are run against iter_indices, iter_axis, view iterators and iter_frequencies and compared call by call with a nested-loop row-major reference model; sum(axis) is compared with adding the views; arrays obtained from Array::read_npy (C-order and Fortran-order headers) must be self-consistent when accepted. The grid is exhaustive, the histories are sampled.",
   design_ref="DESIGN.md section 6 / C19",
   note="Weakest fit for the technique: there is no fault or schedule dimension; the simulator contributes call histories, reference model, minimisation and replay. Harness built with overflow checks on.",
   technique="deterministic simulation: seeded operation histories on stateful iterators checked against an executable sequential reference model"),
